@@ -11,10 +11,16 @@ use serde_json::json;
 
 pub fn signature_of(a: &Anomaly) -> String {
     match a.clause {
-        "buffer-race" | "lifecycle-order" => {
+        "buffer-race" => {
             let names: Vec<&str> = a.sites.iter().map(|s| site::name(*s)).collect();
             format!("{}@{}", a.clause, names.join("+"))
         }
+        "lifecycle-order" => format!(
+            "lifecycle-order@{}->{}@{}",
+            hb::state_name(a.sites[0] as u8),
+            hb::state_name(a.sites[1] as u8),
+            site::name(a.sites[2])
+        ),
         _ => a.clause.to_string(),
     }
 }
@@ -156,7 +162,7 @@ pub fn run_property(id: &str, tier: &str, seed: u64, workers: usize) -> i32 {
     let f = move |rs: u64, nonce: u64, replay: Option<Vec<u32>>| case(prop, thorough, rs, nonce, replay);
     pr.replay_witnesses("pdu-scenario", &f);
     let (runs, wall) = match (id, thorough) {
-        (_, false) => (120_000u64, 40u64),
+        (_, false) => (2_000_000u64, 40u64),
         (_, true) => (20_000_000u64, 780u64),
     };
     let rule = "one run = one drawn scenario (slots, frame size, 1..3 task programs, fault rates, scheduler strategy) executed under one seeded schedule; non-trivial = at least two requests were outstanding at once and at least one pre-emption happened inside a PDU-loop function; distinct = distinct hash of the full event trace";
